@@ -27,7 +27,7 @@
 From Coq Require Import PrimFloat.
 From mathcomp Require Import all_ssreflect all_algebra.
 From Verif Require Import MExp MExpMx MxBox ScalerMx KernelNorm KernelNormMx KernelNormP.
-From Verif Require Import ScalerP KernelCut KernelCutMx KernelCutP KernelObj KernelObjP.
+From Verif Require Import ScalerP KernelCut KernelCutMx KernelCutP KernelObj KernelObjP KernelHeap KernelHeapP.
 Set Implicit Arguments.
 Unset Strict Implicit.
 Unset Printing Implicit Defensive.
@@ -450,3 +450,60 @@ Example C12_history_nonvacuous_float :
      = cons RDone (cons RDone (cons (ROut
          (cons (cons 1%float (cons (-1)%float nil)) (cons (cons (-1)%float (cons 1%float nil)) nil))) nil)).
 Proof. by split; [|split]; vm_compute. Qed.
+
+(* ---- the caller's arrays: the object holds values, not references --------------------------- *)
+
+(* Model/KernelHeap.v: the caller owns arrays (addresses in a heap), may overwrite them between
+   calls (HWrite), and transform(K, copy=False) writes into the caller's array.  Object and
+   results of ANY such history are those of the value-level machine on the calls resolved to the
+   values the arrays held when each call was made *)
+Theorem C12_object_holds_values :
+  forall (T : Type) (nrows ncols : T -> nat) (norm_w : T -> T)
+         (fit_num : bool -> bool -> T -> option T -> T * T * T)
+         (tr_num : bool -> option T -> T -> T -> T -> T -> T)
+         (cen_num : bool -> option T -> T -> T -> T -> T)
+         (ops : list (kh_op T)) (o : kn_obj T) (h : heap T),
+    let '(o2, _, rs) := kh_run T nrows ncols norm_w fit_num tr_num cen_num o h ops in
+    (o2, rs) = kn_run T nrows ncols norm_w fit_num tr_num o
+                      (kh_resolve T nrows ncols norm_w fit_num tr_num cen_num o h ops).
+Proof. move=> T nrows ncols norm_w fit_num tr_num cen_num ops o h; exact: kh_run_resolved. Qed.
+Print Assumptions C12_object_holds_values.
+
+(* fit copies: after any prefix of calls, the caller may overwrite ANY of its arrays — those it
+   passed to fit included — and neither the object nor the result of any later call changes,
+   as long as no later call is itself handed the overwritten array *)
+Theorem C12_fit_copies :
+  forall (T : Type) (nrows ncols : T -> nat) (norm_w : T -> T)
+         (fit_num : bool -> bool -> T -> option T -> T * T * T)
+         (tr_num : bool -> option T -> T -> T -> T -> T -> T)
+         (cen_num : bool -> option T -> T -> T -> T -> T)
+         (pre tail : list (kh_op T)) (o : kn_obj T) (h : heap T) (a : nat) (v : T),
+    (forall op, List.In op tail -> ~ List.In a (kh_reads T op)) ->
+    let '(o1, _, rs1) := kh_run T nrows ncols norm_w fit_num tr_num cen_num o h (pre ++ HWrite a v :: tail) in
+    let '(o2, _, rs2) := kh_run T nrows ncols norm_w fit_num tr_num cen_num o h (pre ++ tail) in
+    o1 = o2 /\ rs1 = rs2.
+Proof.
+  move=> T nrows ncols norm_w fit_num tr_num cen_num pre tail o h a v; exact: kh_write_irrelevant.
+Qed.
+Print Assumptions C12_fit_copies.
+
+(* non-vacuity on the binary64 instantiation: fit(K1 at address 0, weights at address 1), the
+   caller overwrites both arrays, transform(copy=False) of the array at address 2: the result
+   is the one obtained without the writes, and the array at address 2 now holds the centred,
+   unscaled kernel *)
+Example C12_fit_copies_nonvacuous_float :
+  let K1 := cons (cons 1%float (cons 2%float nil)) (cons (cons 2%float (cons 5%float nil)) nil) in
+  let w := cons (cons 1%float nil) (cons (cons 3%float nil) nil) in
+  let junk := cons (cons 7%float (cons 7%float nil)) (cons (cons 7%float (cons 7%float nil)) nil) in
+  let h : heap fmat := fun a => match a with O => K1 | S O => w | _ => K1 end in
+  let r1 := fkh_run (kn_new fmat true true) h
+              (cons (HFit 0%N (Some 1%N)) (cons (HWrite 1%N junk) (cons (HWrite 0%N junk) (cons (HTransformIP 2%N) nil)))) in
+  let r2 := fkh_run (kn_new fmat true true) h (cons (HFit 0%N (Some 1%N)) (cons (HTransformIP 2%N) nil)) in
+  snd r1 = snd r2 /\ fst (fst r1) = fst (fst r2)
+  /\ (exists X, snd r1 = cons RDone (cons (ROut X) nil))
+  /\ fclose_ref 0%float 0%float (snd (fst r1) 2%N) K1 = false.
+Proof.
+  split; [by vm_compute|split; [by vm_compute|split]].
+  - by eexists; vm_compute.
+  - by vm_compute.
+Qed.
